@@ -5584,7 +5584,6 @@ class DfaCompileCtx:
                 def stays_in_place(t):
                     return t.is_fallthrough or (symbols == [DFTransition.End] and DFTransition.End in t.on_values and not t.error_handling)
 
-                visited = set()
                 def leads_to(transition):
                     # where taking the transition can leave the machine: wherever its actions may send it (a break, also under an if)
                     # and, unless one of them always does, its own target
@@ -5596,11 +5595,11 @@ class DfaCompileCtx:
                             return targets
                     return targets + [transition.target]
 
-                def aux(x):
+                def aux(x, symbol):
                     if isinstance(x, DFConditionPoint):
                         steps = x.transitions
                     else:
-                        real_target = x[symbols]
+                        real_target = x[symbol]
                         steps = [real_target] if real_target and stays_in_place(real_target) else []
                     for step in steps:
                         if overflowing and makes_room(step):
@@ -5608,18 +5607,22 @@ class DfaCompileCtx:
                         for target in leads_to(step):
                             if target not in visited:
                                 visited.add(target)
-                                aux(target)
-                
-                if overflowing:
-                    for handler in [target for append in overflowing for target in append.get_target_override_targets()]:
-                        if handler not in visited:
-                            visited.add(handler)
-                            aux(handler)
-                else:
-                    aux(state)
+                                aux(target, symbol)
 
-                if state in visited:
-                    raise IllegalDFAStateError("Infinite loop due to self-referential fallthrough", transition)
+                # The byte that is not consumed is one byte: each symbol of the transition is followed on its own (the states on the way may
+                # well treat the symbols differently -- asked about all of them at once they have no single answer, and the walk would end there)
+                for symbol in symbols:
+                    visited = set()
+                    if overflowing:
+                        for handler in [target for append in overflowing for target in append.get_target_override_targets()]:
+                            if handler not in visited:
+                                visited.add(handler)
+                                aux(handler, symbol)
+                    else:
+                        aux(state, symbol)
+
+                    if state in visited:
+                        raise IllegalDFAStateError("Infinite loop due to self-referential fallthrough", transition)
         
 
     @diagnoses_recursion_limit
